@@ -704,4 +704,7 @@ BENIGN = [
     {"name": "registrations-from-class-level-table", "edits": [
         {"file": RR, "old": '        self.register("photon_desorption_option", (f"opt_uvd{group}", 1.0, vt.param))\n        self.register("H2_desorption_option", (f"opt_h2d{group}", 1.0, vt.param))\n', "new": '        for name, stem, default in self._switches:\n            self.register(name, (f"{stem}{group}", default, vt.param))\n'},
         {"file": RR, "old": '    model = "rr07"\n', "new": '    model = "rr07"\n    _switches = (("photon_desorption_option", "opt_uvd", 1.0), ("H2_desorption_option", "opt_h2d", 1.0))\n'}]},
+    {"name": "registrations-through-helper-handed-a-dict-table", "edits": [
+        {"file": RR, "old": '        self.register("photon_desorption_option", (f"opt_uvd{group}", 1.0, vt.param))\n        self.register("H2_desorption_option", (f"opt_h2d{group}", 1.0, vt.param))\n', "new": '        self._register_rows(self._switches, group, vt.param)\n'},
+        {"file": RR, "old": '    model = "rr07"\n', "new": '    model = "rr07"\n    _switches = {"photon_desorption_option": ("opt_uvd", 1.0), "H2_desorption_option": ("opt_h2d", 1.0)}\n\n    def _register_rows(self, rows, suffix, kind):\n        for name, (stem, default) in rows.items():\n            self.register(name, (f"{stem}{suffix}", default, kind))\n'}]},
 ]
